@@ -134,6 +134,20 @@ func init() {
 		"slice-of-uint8":   func() any { return []uint8{1, 2, 255} },
 		"bytes":            func() any { return []byte("bytes\xff") },
 		"array":            func() any { return Arr2{1, 2} },
+		"bytes-empty":      func() any { return []byte{} },
+		"bytes-15":         func() any { return make([]byte, 15) },
+		"bytes-16":         func() any { return []byte("0123456789abcdef") },
+		"bytes-17":         func() any { return make([]byte, 17) },
+		"array-16-bytes":   func() any { return [16]byte{1, 2, 3} },
+		"ints-1":           func() any { return []int{1} },
+		"ints-2":           func() any { return []int{1, 2} },
+		"ints-4":           func() any { return []int{1, 2, 3, 4} },
+		"array-4-ints":     func() any { return [4]int{1, 2, 3, 4} },
+		"array-0-ints":     func() any { return [0]int{} },
+		"strings-1":        func() any { return []string{"one"} },
+		"array-2-strings":  func() any { return [2]string{"a", "b"} },
+		"ptr-array":        func() any { a := Arr2{3, 4}; return &a },
+		"map-str-int-1":    func() any { return map[string]int{"k": 1} },
 		"array-of-any":     func() any { return [3]any{"a", nil, 1} },
 		"ptr-slice":        func() any { l := []any{"a", "b"}; return &l },
 		"struct-exported": func() any {
